@@ -81,7 +81,7 @@ def gen_case(rng, max_n=200, heavy_ok=False):
     if opts["algorithm"] == "overlap" and "maxPos" in opts and model in ("clusters", "ties") and n > 60:
         # the layering step itself is quadratic per layer on heavily overlapping sets (26 s for 200 labels):
         # keep those for the thorough tier, and rarely
-        if not heavy_ok or rng.random() < 0.8:
+        if not heavy_ok or rng.random() < 0.95:
             labels = labels[:60]
             n = 60
     if rng.random() < 0.08 and n >= 3 and "maxPos" in opts:
